@@ -201,6 +201,10 @@ pub struct C15Mon {
     /// only the at-most-one clause is enforced
     pub disrupted: bool,
     pub own_tokens: u32,
+    /// hold-time clause: a request was sent on a high-priority-only call in this visit (the one message
+    /// cycle that is always allowed) / an ordinary call happened in this visit
+    pub hp_sent_this_visit: bool,
+    pub normal_call_this_visit: bool,
 }
 
 #[derive(Clone)]
@@ -407,6 +411,8 @@ impl RState {
                 if self.cfg.mon == RMon::C15 {
                     self.c15.holding = true;
                     self.c15.asked_this_visit.clear();
+                    self.c15.hp_sent_this_visit = false;
+                    self.c15.normal_call_this_visit = false;
                     self.c15.declined_this_visit.clear();
                 }
             }
@@ -442,6 +448,8 @@ impl RState {
                     if self.cfg.mon == RMon::C15 {
                         self.c15.holding = true;
                         self.c15.asked_this_visit.clear();
+                    self.c15.hp_sent_this_visit = false;
+                    self.c15.normal_call_this_visit = false;
                         self.c15.declined_this_visit.clear();
                     }
                 } else if self.members.contains(da) {
@@ -790,7 +798,26 @@ impl RState {
         {
             for (_, call) in fresh {
                 match call {
-                    Call::Transmit { app, sent, .. } => {
+                    Call::Transmit { app, sent, hp } => {
+                        // "... or the hold time is over": a high-priority-only call means that the station
+                        // itself considers the hold time over; then exactly one message cycle is still allowed
+                        if !self.c15.disrupted {
+                            if hp && self.c15.hp_sent_this_visit {
+                                self.report("asked_again_after_hold_time", format!("application {app} asked (high priority only) although the one message cycle after the end of the hold time was already used in this token visit"));
+                                return;
+                            }
+                            if hp && self.c15.normal_call_this_visit {
+                                self.report("high_prio_cycle_after_ordinary_cycles", format!("application {app} asked with high priority only after ordinary message cycles in the same token visit"));
+                                return;
+                            }
+                        }
+                        if hp && sent.is_some() {
+                            self.c15.hp_sent_this_visit = true;
+                            ctx().witness("c15_high_prio_only_cycle");
+                        }
+                        if !hp {
+                            self.c15.normal_call_this_visit = true;
+                        }
                         if !self.c15.holding {
                             self.report("asked_without_token", format!("application {app} was asked for a telegram while the station does not hold the token"));
                             return;
@@ -890,6 +917,8 @@ impl RState {
             }
             self.c15.holding = da == self.cfg.ts;
             self.c15.asked_this_visit.clear();
+                    self.c15.hp_sent_this_visit = false;
+                    self.c15.normal_call_this_visit = false;
             self.c15.declined_this_visit.clear();
         }
     }
